@@ -58,7 +58,54 @@ def run_sp(sc, prefix=(), seed=0, keep=False):
     return points, probs, outcome, trace
 
 
+def run_spb(sc, prefix=(), seed=0, keep=False):
+    """one stack with a blocking driver sends two connection-mode messages to a reference peer that answers each RTS after
+    its own delay, and a broadcast at the same time: the bursts occupy the job thread's passes while broadcast packets fall due"""
+    from ..net import Bus, Stack, payload
+    from ..refpeer import RefPeer
+    ch = rt.Chooser(prefix)
+    w = rt.World(ch, wake_grid=sc.get('wake_grid'))
+    rt.activate(w)
+    try:
+        dll = sc['dll']
+        bus = Bus(w, base_lat=1e-3)
+        bus.send_cost = sc['send_cost']
+        kw = {}
+        if sc.get('biv') is not None:
+            kw['minimum_tp_bam_dt_interval'] = sc['biv']
+        st = Stack(bus, 'S', dll=dll, max_cmdt_packets=255, **kw)
+        c1 = st.add_ca(0x10, name_value=0x1234)
+        c2 = st.add_ca(0x11, name_value=0x1235)
+        peer = RefPeer(bus, 'P', 0x20, dll, grants=None, holds=(0,), rlat=(1e-3,), dt_gap=(0.0,))
+        peer.rlat_seq = list(sc['rlat_seq'])
+        biv = sc.get('biv')
+        mon = Monitor(dll, win_of={0x10: 255, 0x11: 255}, bam_interval={'S': default_bam(dll) if biv is None else biv},
+                      wake_slack=1.0)       # upper pacing bound not judged here: the job thread is not idle
+        bus.taps.append(mon.feed)
+        w.run_for(0.01)
+        seg = 7 if dll == 'j1939-21' else 60
+        n = sc['npk']
+        for (ca, pf, ps, size) in ((c1, 0xD0, 0x20, seg * n - 1), (c2, 0xD1, 0x20, seg * n - 2), (c1, 0xFE, 0x31, seg * 6 - 1)):
+            ca.send_pgn(0, pf, ps, 6, payload(size, 0, seed))
+        w.run_for(3.0)
+        probs = ["flow control: " + t for (who, t) in mon.problems if who == 'S']
+        probs += ["conforming peer: " + p for p in peer.problems]
+        if len(peer.received) != 3 - 0 and len(peer.received) != 3:
+            pass
+        got = sorted(len(x[3]) for x in peer.received)
+        if got != sorted([seg * n - 1, seg * n - 2, seg * 6 - 1]):
+            probs.append("the peer did not receive the three messages intact (got sizes %r)" % (got,))
+        if st.job.exc is not None:
+            probs.append("job thread dead: %s" % st.job.exc_type)
+        outcome = ([(f.src, f.can_id, f.data) for f in bus.log], 0)
+        return ch.points, probs, outcome, [f.brief() for f in bus.log] if keep else None
+    finally:
+        w.shutdown()
+
+
 def run_one(sc, prefix=(), seed=0, keep=False):
+    if 'rlat_seq' in sc:
+        return run_spb(sc, prefix, seed, keep)
     return run_ss(sc, prefix, seed, keep) if 'stacks' in sc else run_sp(sc, prefix, seed, keep)
 
 
@@ -133,6 +180,24 @@ def scenarios(tier):
                   'stacks': [{'name': 'A', 'cas': [0x10, 0x11], 'win': 2}, {'name': 'B', 'cas': [0x20], 'win': 3}],
                   'msgs': [msg(0x10, 'bam2', 0x31, size), msg(0x11, 'bam1', 255, size + 3), msg(0x10, 'p2p', 0x20, size + 9)]}
             items.append((sc, 1 if npk <= 5 else 0))
+        # (2b) a blocking driver (every send call holds the sending thread 0.5 ms): a broadcast paced while long
+        #      connection-mode bursts of the same stack occupy the job thread's passes
+        for (wa, npk_c) in ((255, 40), (8, 24), (255, 17)):
+            for biv in (None, 0.1):
+                sc = {'dll': dll, 'base_lat': 1e-3, 'send_cost': 0.0005,
+                      'stacks': [{'name': 'A', 'cas': [0x10, 0x11], 'win': wa, 'kw': {'minimum_tp_bam_dt_interval': biv}},
+                                 {'name': 'B', 'cas': [0x20, 0x21], 'win': wa}],
+                      'msgs': [msg(0x10, 'p2p', 0x20, seg * npk_c - 1), msg(0x10, 'bam2', 0x31, seg * 5 - 1),
+                               msg(0x11, 'p2p', 0x21, seg * npk_c - 3), msg(0x11, 'p2p', 0x20, seg * (npk_c // 2) + 1)]}
+                items.append((sc, 0))
+                sc2 = dict(sc, wake_grid=WAKES)
+                items.append((sc2, 1))
+        # (2c) the same against a reference peer whose two clear-to-send replies arrive while broadcast packets fall due
+        for biv in (None, 0.06, 0.1):
+            for npk in (40, 24):
+                for d1 in (0.020, 0.030, 0.045, 0.048, 0.055, 0.070, 0.095):
+                    for gap in (0.004, 0.010, 0.016):
+                        items.append(({'dll': dll, 'send_cost': 0.0005, 'biv': biv, 'npk': npk, 'rlat_seq': [d1, d1 + gap]}, 0))
         # (3) stack <-> reference peer: RTS limits from a reference originator, grants / holds from a reference responder
         sizes = [seg * k - 3 for k in ([2, 3, 5, 9] if quick else [2, 3, 4, 5, 6, 9, 12, 17, 40])]
         for size in sizes:
@@ -159,7 +224,7 @@ ASSUME = ["timing tolerance 0.1 ms below the configured interval; upper bound 20
 
 def run(tier, seed):
     items = [(sc, b, seed) for (sc, b) in scenarios(tier)]
-    items.sort(key=lambda it: -(it[1] * 3000 + (it[0].get('size') or it[0]['msgs'][0]['size'])))
+    items.sort(key=lambda it: -(it[1] * 3000 + (it[0].get('size') or (it[0]['msgs'][0]['size'] if 'msgs' in it[0] else 300))))
     return run_check(PROP, tier, seed, 'exploration', items, worker, RULE, ASSUME,
                      bounds={'deviation_bound': 1 if tier == 'quick' else 2})
 
